@@ -188,6 +188,7 @@ PROPS = {
         'level_note': 'Unbounded histories by induction; tie to code by correspondence (wire bytes compared byte for byte, masks fixed by the hook).',
     },
     'C06': {
+        'modules': ['C06', 'C06Global'],
         'families': [('corpus:limits', 0, 0), ('ep:limits', 1500, 40000), ('ep:codec', 500, 10000)],
         'rule': 'frame/fragment size patterns around the configured limits (limit-1, limit, limit+1; limits 0,1,5,10,125,126,300), '
                 'headers announcing up to 2^64-1 bytes with nothing following, every read-buffer size; read-only cases are also '
@@ -218,6 +219,7 @@ PROPS = {
                       'correspondence; the theorems here are per-call Hoare triples for every state.',
     },
     'C12': {
+        'modules': ['C12', 'C12Global'],
         'families': [('corpus:defects', 0, 0), ('ep:close', 2000, 60000), ('pure:closecode', 1, 1)],
         'rule': 'close frames with every class of status code (all 65536 through the conversion functions), reasons empty..123 bytes, '
                 'arriving in every connection state, with and without a pending pong',
@@ -230,6 +232,7 @@ PROPS = {
         'level_note': '"Exactly one Close reaches the wire" is the CloseLast part of the C03 invariant plus C13; here per-call theorems for every state.',
     },
     'C14': {
+        'modules': ['C14', 'C14Global'],
         'families': [('corpus:defects', 0, 0), ('ep:backpressure', 2000, 60000), ('ep:mixed', 500, 10000)],
         'rule': '(write_buffer_size, max_write_buffer_size) pairs incl. 0 and adjacent values, message size sequences, transport refusal '
                 'windows, ping floods while blocked',
